@@ -118,3 +118,9 @@ Proof. reflexivity. Qed.
 Lemma src_hot_filterDstStores_ok : Gen_C11.src_hot_filterDstStores =
   "{ var ( filters []filter.Filter candidates []*core.StoreInfo ) srcStore := bs.cluster.GetStore(bs.cur.srcStoreID) if srcStore == nil { return nil } switch bs.opTy { case movePeer: filters = []filter.Filter{ &filter.StoreStateFilter{ActionScope: bs.sche.GetName(), MoveRegion: true}, filter.NewExcludedFilter(bs.sche.GetName(), bs.cur.region.GetStoreIds(), bs.cur.region.GetStoreIds()), filter.NewSpecialUseFilter(bs.sche.GetName(), filter.SpecialUseHotRegion), filter.NewPlacementSafeguard(bs.sche.GetName(), bs.cluster, bs.cur.region, srcStore), } for storeID := range bs.stLoadDetail { candidates = append(candidates, bs.cluster.GetStore(storeID)) } case transferLeader: filters = []filter.Filter{ &filter.StoreStateFilter{ActionScope: bs.sche.GetName(), TransferLeader: true}, filter.NewSpecialUseFilter(bs.sche.GetName(), filter.SpecialUseHotRegion), } if leaderFilter := filter.NewPlacementLeaderSafeguard(bs.sche.GetName(), bs.cluster, bs.cur.region, srcStore); leaderFilter != nil { filters = append(filters, leaderFilter) } for _, store := range bs.cluster.GetFollowerStores(bs.cur.region) { if _, ok := bs.stLoadDetail[store.GetID()]; ok { candidates = append(candidates, store) } } default: return nil } return bs.pickDstStores(filters, candidates) }".
 Proof. reflexivity. Qed.
+
+(* the leader candidates: target stores without an engine label whose labels do not reject leaders; all ordinary target stores
+   only if every one rejects leaders *)
+Lemma src_selectAvailableLeaderStores_ok : Gen_C11.src_selectAvailableLeaderStores =
+  "{ leaderCandidateStores := make([]uint64, 0) for storeID := range peers { store := r.cluster.GetStore(storeID) engine := store.GetLabelValue(filter.EngineKey) if len(engine) < 1 && !r.cluster.GetOpts().CheckLabelProperty(opt.RejectLeader, store.GetLabels()) { leaderCandidateStores = append(leaderCandidateStores, storeID) } } minStoreGroupLeader := uint64(math.MaxUint64) id := uint64(0) if len(leaderCandidateStores) == 0 { for storeID := range peers { if len(r.cluster.GetStore(storeID).GetLabelValue(filter.EngineKey)) < 1 { leaderCandidateStores = append(leaderCandidateStores, storeID) } } } for _, storeID := range leaderCandidateStores { storeGroupLeaderCount := context.selectedLeader.Get(storeID, group) if minStoreGroupLeader > storeGroupLeaderCount { minStoreGroupLeader = storeGroupLeaderCount id = storeID } } return id }".
+Proof. reflexivity. Qed.
